@@ -265,9 +265,9 @@ def codegen_theorem(chk, tier, d):
         jobs.append(dict(module="XCodeGenMC", cfg=cfg, workers=1, heap="3g", timeout=12000,
                          env={"WHICH": which, "SLICE": str(sl), "NSL": str(nsl), "STRIDE": str(stride), "DEV": dev, "OUT": o}))
     for sl in range(16):
-        job("XCodeGenMC.cfg", "", sl, 16, 160 if tier == "quick" else 4)
+        job("XCodeGenMC.cfg", "", sl, 16, 320 if tier == "quick" else 4)
     for sl in range(4):
-        job("XCodeGenMC.cfg", "calls", sl, 4, 1)
+        job("XCodeGenMC.cfg", "calls", sl, 4, 2 if tier == "quick" else 1)
     job("XCodeGenMC_nosave.cfg", "", 0, 400, 1, "nosave")
     job("XCodeGenMC_sharedslot.cfg", "calls", 1, 4, 1, "sharedslot")
     # ... and the same cases through the assembler half of the specification and HexISA itself (XCompileMC): image bytes, byte-granular fetch
@@ -275,8 +275,8 @@ def codegen_theorem(chk, tier, d):
         o = os.path.join(d, "xcc_%s_%d.json" % (dev or "code", sl)); outs.append((dev and "isa:" + dev, o))
         jobs.append(dict(module="XCompileMC", cfg=cfg, workers=1, heap="3g", timeout=12000,
                          env={"WHICH": "", "SLICE": str(sl), "NSL": str(nsl), "STRIDE": str(stride), "DEV": dev, "OUT": "", "OUT2": o}))
-    for sl in range(16):
-        jobisa("XCompileMC.cfg", sl, 16, 600 if tier == "quick" else 40)
+    for sl in range(8 if tier == "quick" else 16):
+        jobisa("XCompileMC.cfg", sl, 8 if tier == "quick" else 16, 1200 if tier == "quick" else 40)
     jobisa("XCompileMC_nonfix.cfg", 3, 2000, 1, "nonfix")
     nhs = 16 + 4 + 2
     res = vlib.tlc_parallel(jobs, nproc=vlib.NCPU)
@@ -297,8 +297,8 @@ def codegen_theorem(chk, tier, d):
             chk.violation("spec-XCompile" if pre else "spec-XCodeGen", "TLC: the code XCodeGen specifies does not compute what XLang defines (or leaves its regions), e.g. %s" % rep['example'][:600])
     chk.add("states", states); chk.add("transitions", states)
     chk.set("XCodeGenMC", dict(tot))
-    chk.vacuity(tot["isa_defined"] < (1500 if tier == "quick" else 25000), "XCompileMC: too few cases inside XLang's domain: %s" % dict(tot))
-    chk.vacuity(tot["defined"] < (8000 if tier == "quick" else 300000), "XCodeGenMC: too few cases inside XLang's domain: %s" % dict(tot))
+    chk.vacuity(tot["isa_defined"] < (700 if tier == "quick" else 25000), "XCompileMC: too few cases inside XLang's domain: %s" % dict(tot))
+    chk.vacuity(tot["defined"] < (5000 if tier == "quick" else 300000), "XCodeGenMC: too few cases inside XLang's domain: %s" % dict(tot))
 
 
 def codegen(chk, exe, cases, d, tier, rng):
